@@ -24,6 +24,15 @@ OBLIGATIONS.append(dict(name="dir_inode_thresholds", harness="harness/C03_dirino
     included_sources=["lib/sqfs/src/dir_writer.c"], pre_include=["stubs/vp_alloc_sizes.h"], defines=dict(VP_ALLOC_SIZES="64"), unwind=4, tiers=["quick", "thorough"], timeout=200,
     reach=["basic", "extended"], functions=["sqfs_dir_writer_create_inode (lib/sqfs/src/dir_writer.c)"],
     bound="any listing size < 2^32-16, any entry count, hard link count, xattr index, parent, position (no directory index entries)"))
+def ser(kind, tiers):
+    nm = {1: "dir", 2: "file", 3: "symlink", 4: "device", 5: "ipc"}[kind]
+    return dict(name="serialize_node_%s" % nm, harness="harness/C13_serialize.c", sources=["lib/sqfs/src/inode.c", "lib/util/src/alloc.c"],
+        included_sources=["lib/common/src/writer/serialize_fstree.c"], pre_include=["stubs/vp_alloc_sizes.h"], defines=dict(dict(KIND=kind, VP_ALLOC_SIZES="64,66"), **({"PERM": "04751"} if kind <= 3 else {})), unwind=10, leak=True, tiers=tiers, timeout=300,
+        fp_map={"get_size": ["get_size_stub"]}, reach=["success", "failure"],
+        functions=["sqfs_serialize_fstree, serialize_tree_node, write_dir_entries, tree_node_to_inode (lib/common/src/writer/serialize_fstree.c)",
+                   "sqfs_inode_set_xattr_index, sqfs_inode_make_basic, sqfs_inode_make_extended (lib/sqfs/src/inode.c)"],
+        bound="one tree node (%s) with %s, symbolic ids, times, link count, xattr index; every step of the serialiser may fail" % (nm, "permission bits 04751" if kind <= 3 else "all 4096 permission bit values"))
+OBLIGATIONS += [ser(k, ["quick", "thorough"]) for k in (1, 2, 3, 4, 5)]
 OBLIGATIONS.append(dict(name="packfile_keywords", harness="harness/C01_packfile.c",
     sources=["lib/util/src/parse_int.c", "lib/util/src/canonicalize_name.c", "lib/util/src/split_line.c", "lib/util/src/alloc.c"], stubs=["stubs/vp_ctype.c", "stubs/vp_sysmacros.c"],
     included_sources=["bin/gensquashfs/src/fstree_from_file.c"], incdirs=["bin/gensquashfs/src"], unwind=12, tiers=["quick", "thorough"], timeout=300, reach=["done"],
